@@ -9,6 +9,7 @@ import shutil
 import subprocess
 import sys
 import tempfile
+import textwrap
 import warnings
 
 from ..core.log import EventLog, digest_of
@@ -266,6 +267,7 @@ class Oracle:
 
     # ---- python
     def check_python(self, rec, text, g):
+        text = textwrap.dedent(text)  # a text printed with tab="    " is meant to be embedded at that indentation
         try:
             errs, assigned, fname = pyscan.binding_errors(text)
         except SyntaxError as e:
@@ -328,6 +330,7 @@ class Oracle:
     def check_numpy(self, rec, text, g):
         import numpy
 
+        text = textwrap.dedent(text)
         try:
             errs, assigned, fname = pyscan.binding_errors(text)
         except SyntaxError as e:
